@@ -153,10 +153,6 @@ func (b *flattenBuffer) Point(p edge.PointMessage) error {
 		b.groupInfo.Tags,
 		t,
 	)
-	// update the time
-	if t.After(b.time) {
-		b.time = t
-	}
 	b.n.timer.Pause()
 	err = edge.Forward(b.n.outs, flatP)
 	b.n.timer.Resume()
